@@ -184,29 +184,49 @@ theorem slice_eq_drop_take (T : List Nat) (a b : Nat) : slice T a b = (T.take b)
   unfold slice
   rw [List.drop_take]
 
-theorem Chg.of_splice (T ins : List Nat) (S O : Nat) (h1 : S ≤ O) (h2 : O ≤ T.length) :
-    Chg T (T.take S ++ ins ++ T.drop O) S O (S + ins.length) := by
+/-- The text after replacing the bytes `[S, O)` of `T` by `ins`. -/
+def splice (T ins : List Nat) (S O : Nat) : List Nat := T.take S ++ ins ++ T.drop O
+
+theorem splice_length (T ins : List Nat) (S O : Nat) (h1 : S ≤ O) (h2 : O ≤ T.length) :
+    (splice T ins S O).length = S + ins.length + (T.length - O) := by
+  unfold splice
+  simp only [List.length_append, List.length_take, List.length_drop]; omega
+
+/-- Below the start of the change the two texts have the same bytes. -/
+theorem slice_splice_below (T ins : List Nat) (S O a b : Nat) (h2 : O ≤ T.length) (h1 : S ≤ O) (hb : b ≤ S) :
+    slice (splice T ins S O) a b = slice T a b := by
+  unfold splice
+  rw [slice_eq_drop_take, slice_eq_drop_take]
+  have : (T.take S ++ ins ++ T.drop O).take b = T.take b := by
+    rw [List.append_assoc, List.take_append_of_le_length (by simp only [List.length_take]; omega),
+      List.take_take]
+    congr 1; omega
+  rw [this]
+
+/-- From the new end on, the new text has the bytes the old text has from the old end on. -/
+theorem slice_splice_above (T ins : List Nat) (S O x y : Nat) (h1 : S ≤ O) (h2 : O ≤ T.length) :
+    slice (splice T ins S O) (S + ins.length + x) (S + ins.length + y) = slice T (O + x) (O + y) := by
   have hlenP : (T.take S ++ ins).length = S + ins.length := by
     simp only [List.length_append, List.length_take]; omega
+  unfold splice slice
+  have hd : (T.take S ++ ins ++ T.drop O).drop (S + ins.length + x) = T.drop (O + x) := by
+    rw [← hlenP, List.drop_append, List.drop_drop]
+    have e : (T.take S ++ ins).length + x - (T.take S ++ ins).length = x := by omega
+    rw [e, List.drop_of_length_le (by omega), List.nil_append]
+  rw [hd]
+  congr 1
+  omega
+
+theorem Chg.of_splice (T ins : List Nat) (S O : Nat) (h1 : S ≤ O) (h2 : O ≤ T.length) :
+    Chg T (splice T ins S O) S O (S + ins.length) := by
   refine ⟨h1, h2, by omega, ?_, ?_, ?_⟩
-  · simp only [List.length_append, List.length_take, List.length_drop]; omega
+  · rw [splice_length T ins S O h1 h2]
   · intro a b hb
     unfold lenS
-    rw [slice_eq_drop_take, slice_eq_drop_take]
-    have : (T.take S ++ ins ++ T.drop O).take b = T.take b := by
-      rw [List.append_assoc, List.take_append_of_le_length (by simp only [List.length_take]; omega),
-        List.take_take]
-      congr 1; omega
-    rw [this]
+    rw [slice_splice_below T ins S O a b h2 h1 hb]
   · intro x y
-    unfold lenS slice
-    have hd : (T.take S ++ ins ++ T.drop O).drop (S + ins.length + x) = T.drop (O + x) := by
-      rw [← hlenP, List.drop_append, List.drop_drop]
-      have e : (T.take S ++ ins).length + x - (T.take S ++ ins).length = x := by omega
-      rw [e, List.drop_of_length_le (by omega), List.nil_append]
-    rw [hd]
-    congr 2
-    omega
+    unfold lenS
+    rw [slice_splice_above T ins S O x y h1 h2]
 
 theorem Chg.trivial (T : List Nat) (S : Nat) (h : S ≤ T.length) : Chg T T S S S :=
   ⟨Nat.le_refl _, h, Nat.le_refl _, by omega, fun _ _ _ => rfl, fun _ _ => rfl⟩
